@@ -1,14 +1,16 @@
 /-
   C05 - A command's response stream is delimited by its own tagged completion.
   Theorems about one poll of `ResponseStream::poll_next` (model `Client.Stream.pollNext`) in any state,
-  under any transport script; items are the frames of the framed transport, whose order and
-  completeness are C04's theorems.
+  under any transport script, and - at the end of the file - about the whole life of a command's
+  stream from `call` to its completion (`command_stream_is_delimited`, composing the per-poll facts
+  with C04's one-poll specification of the framed transport).
   Not provable here (observed with the mock transport): that the waker registered is the transport's.
 -/
 import ImapVerif.Proofs.ClientInv
 import ImapVerif.Proofs.Framed
+import ImapVerif.Proofs.Session
 
-open Bytes Client ClientInv
+open Bytes Client ClientInv Framed Session
 
 namespace C05
 
@@ -68,5 +70,50 @@ theorem pending_only_from_transport (s : RStream) (c : Conn) (rs : List REv) (ws
 theorem pending_while_sending (c : Wr) (ws : List WEv) (h : (pollFlush c ws).1 = .pending) :
     (pollFlush c ws).2.2.1 = [] ∨ ∃ pre, ws = pre ++ WEv.pending :: (pollFlush c ws).2.2.1 :=
   (pollFlush_spec c ws).2.2 h
+
+/-! ### the whole life of a command -/
+
+/-- **a command's stream, from `call` to its completion**: poll the stream returned by `call` any
+    number of times, under any read / write / flush schedule, on a connection whose read half is
+    healthy.  As long as no poll reports an error:
+    * the frames delivered, followed by the one-shot framing of what the connection has not yet
+      delivered, are the one-shot framing of the connection's byte stream: every response once, in
+      order, none withheld past a Pending (C04 `nothing_withheld` applies to the same read half);
+    * a frame carrying the command's own tag puts the stream in `Done`;
+    * in `Done`, that completion is the last frame delivered and no earlier frame carried the tag:
+      the stream stops exactly there, and everything after it is still in the connection (buffer
+      or transport) for the next command. -/
+theorem command_stream_is_delimited (k : Nat) (c : Conn) (args : Bytes) (rs : List REv) (ws : List WEv)
+    (res : List PollR) (s' : RStream) (c' : Conn) (rs' : List REv) (ws' : List WEv)
+    (he : c.rd.errored = false) (hs : Settled c.rd)
+    (h : spolls k (c.call args).2 (c.call args).1 rs ws = (res, s', c', rs', ws'))
+    (hne : ∀ r ∈ res, r ≠ .item .error) :
+    framesOf res ++ ideal (c'.rd.rbuf ++ dataOf rs') = ideal (c.rd.rbuf ++ dataOf rs) ∧
+    c'.rd.errored = false ∧ Settled c'.rd ∧
+    (∀ f ∈ framesOf res, requestId f.value = some (Builders.tagOf (c.issued + 1)) → s'.st = .done) ∧
+    (s'.st = .done → ∃ pre f, framesOf res = pre ++ [f] ∧ requestId f.value = some (Builders.tagOf (c.issued + 1)) ∧
+      ∀ g ∈ pre, requestId g.value ≠ some (Builders.tagOf (c.issued + 1))) := by
+  have := session_invariant k (c.call args).2 (c.call args).1 rs ws res s' c' rs' ws'
+    (by simp [Conn.call]) (by simpa [Conn.call] using he) (by simpa [Conn.call] using hs) h hne
+  obtain ⟨h1, h2, h3, _, h5, h6⟩ := this
+  exact ⟨by simpa [Conn.call] using h1, h2, h3, by simpa [Conn.call] using h5, by simpa [Conn.call] using h6⟩
+
+/-- the same from any live state of the stream (e.g. for the polls after an abandoned wait) -/
+theorem live_stream_is_delimited (k : Nat) (s : RStream) (c : Conn) (rs : List REv) (ws : List WEv)
+    (res : List PollR) (s' : RStream) (c' : Conn) (rs' : List REv) (ws' : List WEv)
+    (hnd : s.st ≠ .done) (he : c.rd.errored = false) (hs : Settled c.rd)
+    (h : spolls k s c rs ws = (res, s', c', rs', ws')) (hne : ∀ r ∈ res, r ≠ .item .error) :
+    framesOf res ++ ideal (c'.rd.rbuf ++ dataOf rs') = ideal (c.rd.rbuf ++ dataOf rs) ∧
+    (∀ f ∈ framesOf res, requestId f.value = some s.tag → s'.st = .done) ∧
+    (s'.st = .done → ∃ pre f, framesOf res = pre ++ [f] ∧ requestId f.value = some s.tag ∧
+      ∀ g ∈ pre, requestId g.value ≠ some s.tag) := by
+  obtain ⟨h1, _, _, _, h5, h6⟩ := session_invariant k s c rs ws res s' c' rs' ws' hnd he hs h hne
+  exact ⟨h1, h5, h6⟩
+
+/-- once `Done`, any number of further polls deliver nothing and leave connection and scripts alone -/
+theorem done_polls_touch_nothing (k : Nat) (s : RStream) (c : Conn) (rs : List REv) (ws : List WEv)
+    (h : s.st = .done) : ∃ l, spolls k s c rs ws = (l, s, c, rs, ws) ∧ ∀ r ∈ l, r = .done := by
+  obtain ⟨l, h1, _, h3⟩ := spolls_done k s c rs ws h
+  exact ⟨l, h1, h3⟩
 
 end C05
